@@ -34,6 +34,10 @@ fn main() {
         std::process::exit(2);
     }
     util::silence_panics();
+    // VERIF_MASK: hide CPU features through hook H2 for the whole run (bits: 1 avx, 2 fma, 4 avx2, 8 sse4.1)
+    if let Ok(m) = std::env::var("VERIF_MASK") {
+        rustfft::verif_hooks::set_feature_mask(m.parse().expect("VERIF_MASK"));
+    }
     let rest = &args[1..];
     match args[0].as_str() {
         "k1" => k1::run(rest),
